@@ -9,11 +9,14 @@ import RModel.Lemmas.HistoryTree
 /-
   C10 — History is a consistent append-only record under any operation sequence.   (property theorems only)
 
-  The model has four switchable checks (`Cfg`): `earlyDupCheck` (c3d511b), `redoOnce` (07a4584), and the two proposed
-  pre-validations `undoPrevalidate`, `redoPrevalidate` (seeded/_fixes/c10_undo_prevalidate.diff, c10_redo_prevalidate.diff).
+  The model has four switchable checks (`Cfg`): `earlyDupCheck` (c3d511b), `redoOnce` (07a4584), the pre-validations
+  `undoPrevalidate` (657a7be), `redoPrevalidate` (3933d7f), and two shape flags: `planBeforeEntry` (6667a82: the plan is
+  stored before the history entry, which is the commit point) and `revertIdOfRoot` (false in the code; a seeded change
+  builds the revert id on the root plan id).
   `Cfg.current` is REGENERATED from the source (Gen/HistoryFlags.lean); the driver runs it.  Every theorem below is
   stated for an arbitrary `cfg` with explicit hypotheses on its flags (or on a fixed named configuration), so the file
-  checks before and after a pre-validation lands; `current_has_repairs` ties the two committed repairs to the code.
+  checks whatever the flags are; `current_shape` says which configuration the translator read from the code (all four
+  checks, plan before entry, revert id on the entry id) — if a check disappears from the code this stops checking.
 
   Full statement: `C10_full cfg` (a `def … : Prop`).  `C10_full_false_without_prevalidation`: false for the code without
   the pre-validations (witnesses `undo_older_without_prevalidation`, `redo_partial_without_prevalidation`).
@@ -80,7 +83,7 @@ theorem undo_eligibility (cfg : Cfg) (ops : Ops Tree Plan Backup H) (w : World T
     (h : (step cfg ops w (.undo t)).2 = .ok) :
     ∃ i e, resolve w.entries true t = some i ∧ findEntry w.entries i = some e ∧ e.revertOf = none ∧
       hasRevertOf w.entries i = false ∧
-      (step cfg ops w (.undo t)).1.entries = w.entries ++ [{ id := .revert i w.clock, revertOf := some i }] :=
+      (step cfg ops w (.undo t)).1.entries = w.entries ++ [{ id := revertId cfg i w.clock, revertOf := some i }] :=
   History.undo_ok cfg ops w t h
 
 /-- Redo succeeds only on an entry that exists and has a revert; it appends `redo-<id>-<now>`. -/
@@ -111,9 +114,21 @@ theorem fresh_of_injective (ops : Ops Tree Plan Backup H)
 -- B. consequences of the single checks ---------------------------------------------------------------------------
 
 /-- ids of the form `revert-<j>-…` always belong to entries that revert `j`, along every run from an empty history -/
-theorem revert_ids_wellformed (cfg : Cfg) (ops : Ops Tree Plan Backup H) (t : Tree) (clock : Nat) (cs : List (Cmd H)) :
+theorem revert_ids_wellformed (cfg : Cfg) (hRI : cfg.revertIdOfRoot = false) (ops : Ops Tree Plan Backup H) (t : Tree)
+    (clock : Nat) (cs : List (Cmd H)) :
     History.RevForm (run cfg ops (init t clock : World Tree Plan Backup H) cs).1.entries :=
-  History.run_revForm cfg ops _ cs (by intro e he; simp [init] at he)
+  History.run_revForm cfg hRI ops _ cs (by intro e he; simp [init] at he)
+
+/-- 6667a82.  With the early id check the order "plan file, then history entry" vs "entry, then plan file" makes no
+    difference to any command: the only step at which they differ (the entry cannot be recorded) is unreachable. -/
+theorem plan_order_irrelevant (cfg : Cfg) (hE : cfg.earlyDupCheck = true) (b : Bool) (ops : Ops Tree Plan Backup H)
+    (w : World Tree Plan Backup H) (id : EId H) (p : Plan) :
+    applyWithId { cfg with planBeforeEntry := b } ops w id p = applyWithId cfg ops w id p := by
+  unfold applyWithId
+  by_cases hd : hasId w.entries id = true
+  · simp [hd, hE]
+  · have hd' : hasId w.entries id = false := by simpa using hd
+    cases ha : ops.apply w.tree p <;> simp [hd', addEntry]
 
 /-- c3d511b.  A rename whose id is already in the history — equal concatenated terms in the same second — changes
     nothing at all and does not report success; likewise `apply_plan` under any id that is already there (redo). -/
@@ -152,7 +167,7 @@ theorem redo_never_again (cfg : Cfg) (hR : cfg.redoOnce = true) (ops : Ops Tree 
   · exact History.stepRedo_redone_current cfg hR ops _ (.id i) i (by simp [resolve, hid]) hp
   · unfold stepRedo; simp [resolve, hid]
 
-/-- PROPOSED redo pre-validation (with the early id check): in ANY state a redo either succeeds or changes nothing —
+/-- 3933d7f, the redo pre-validation (with the early id check): in ANY state a redo either succeeds or changes nothing —
     not the tree, not the history, not the stores.  No guard. -/
 theorem redo_atomic (cfg : Cfg) (hE : cfg.earlyDupCheck = true) (hP : cfg.redoPrevalidate = true)
     (ops : Ops Tree Plan Backup H) (w : World Tree Plan Backup H) (t : Target H)
@@ -162,22 +177,22 @@ theorem redo_atomic (cfg : Cfg) (hE : cfg.earlyDupCheck = true) (hP : cfg.redoPr
   · exact h'.2
   · exact absurd h'.1 (History.stepRedo_never_failed cfg hE hP ops w t)
 
-/-- PROPOSED undo pre-validation: in any state whose revert ids are well-formed an undo either succeeds or changes
+/-- 657a7be, the undo pre-validation: in any state whose revert ids are well-formed an undo either succeeds or changes
     nothing. -/
-theorem undo_atomic (cfg : Cfg) (hU : cfg.undoPrevalidate = true) (ops : Ops Tree Plan Backup H)
+theorem undo_atomic (cfg : Cfg) (hU : cfg.undoPrevalidate = true) (hRI : cfg.revertIdOfRoot = false) (ops : Ops Tree Plan Backup H)
     (w : World Tree Plan Backup H) (t : Target H) (hF : History.RevForm w.entries)
     (h : (step cfg ops w (.undo t)).2 ≠ .ok) : (step cfg ops w (.undo t)).1 = w := by
   rcases History.stepUndo_cases cfg ops w t with h' | h' | h'
   · exact absurd h'.1 h
   · exact h'.2
-  · exact absurd h'.1 (History.stepUndo_never_failed cfg hU ops w t hF)
+  · exact absurd h'.1 (History.stepUndo_never_failed cfg hU hRI ops w t hF)
 
 /-- … hence after ANY command sequence from an empty history, with any clock schedule. -/
-theorem undo_atomic_all_runs (cfg : Cfg) (hU : cfg.undoPrevalidate = true) (ops : Ops Tree Plan Backup H)
+theorem undo_atomic_all_runs (cfg : Cfg) (hU : cfg.undoPrevalidate = true) (hRI : cfg.revertIdOfRoot = false) (ops : Ops Tree Plan Backup H)
     (tr : Tree) (clock : Nat) (cs : List (Cmd H)) (t : Target H)
     (h : (step cfg ops (run cfg ops (init tr clock) cs).1 (.undo t)).2 ≠ .ok) :
     (step cfg ops (run cfg ops (init tr clock) cs).1 (.undo t)).1 = (run cfg ops (init tr clock) cs).1 :=
-  undo_atomic cfg hU ops _ t (revert_ids_wellformed cfg ops tr clock cs) h
+  undo_atomic cfg hU hRI ops _ t (revert_ids_wellformed cfg hRI ops tr clock cs) h
 
 -- C. refinement ------------------------------------------------------------------------------------------------
 
@@ -193,19 +208,19 @@ def C10_full (cfg : Cfg) : Prop :=
 /-- Refinement under the guard: for every tree side with the round-trip law, every start tree, clock and command
     list whose steps all satisfy `G10`, every command conforms to the abstract history. -/
 theorem refines_spec_partial [DecidableEq Tree] (cfg : Cfg) (hE : cfg.earlyDupCheck = true) (hR : cfg.redoOnce = true)
-    (ops : Ops Tree Plan Backup H) (hRT : RoundTrip ops) (t : Tree) (clock : Nat) (cs : List (Cmd H))
+    (hRI : cfg.revertIdOfRoot = false) (ops : Ops Tree Plan Backup H) (hRT : RoundTrip ops) (t : Tree) (clock : Nat) (cs : List (Cmd H))
     (hG : Guarded cfg ops (init t clock : World Tree Plan Backup H) ([] : Spec Tree H) cs = true) :
     AllConform cfg ops (init t clock : World Tree Plan Backup H) ([] : Spec Tree H) cs :=
-  History.guarded_conform cfg hE hR ops hRT cs _ _ (History.inv_init ops t clock) hG
+  History.guarded_conform cfg hE hR hRI ops hRT cs _ _ (History.inv_init ops t clock) hG
 
 /-- One guarded step from any state satisfying the invariant (what the induction uses).  In particular: an undo
     that succeeds addresses an operation that is applied in the abstract history, a redo one that is undone — without
     the guard saying so. -/
 theorem guarded_step_conforms [DecidableEq Tree] (cfg : Cfg) (hE : cfg.earlyDupCheck = true) (hR : cfg.redoOnce = true)
-    (ops : Ops Tree Plan Backup H) (hRT : RoundTrip ops)
+    (hRI : cfg.revertIdOfRoot = false) (ops : Ops Tree Plan Backup H) (hRT : RoundTrip ops)
     (w : World Tree Plan Backup H) (s : Spec Tree H) (c : Cmd H) (hI : History.Inv ops w s)
     (hG : G10 ops w s c = true) : Conforms cfg ops w s c :=
-  (History.inv_step cfg hE hR ops hRT w s c hI hG).1
+  (History.inv_step cfg hE hR hRI ops hRT w s c hI hG).1
 
 /-- The eligibility scans of the implementation decide the abstract status, in every state reached inside the guard:
     an entry without a revert carries an applied operation, a reverted and not-yet-redone entry an undone one. -/
@@ -233,8 +248,9 @@ def renB : C := .rename b!"alpha" b!"gamma"
 def idA : EId HistoryTree.H := .plan (b!"foo_barbaz_qux", 0)
 def idB : EId HistoryTree.H := .plan (b!"alphagamma", 0)
 
-/-- the two committed repairs are in the code the translator read (if one disappears this stops checking) -/
-theorem current_has_repairs : Cfg.current.earlyDupCheck = true ∧ Cfg.current.redoOnce = true := by decide
+/-- the shape of the code the translator read: all four checks, the plan stored before the history entry, the revert id
+    built on the entry id (if a check disappears or the id format changes, this stops checking) -/
+theorem current_shape : Cfg.current = Cfg.full := by decide
 
 -- the two remaining ways out of the property, and what the proposed pre-validations do about them -----------------
 
@@ -371,14 +387,36 @@ theorem roundtrip_concrete : RoundTrip HistoryTree.ops := HistoryTree.roundTrip
 
 /-- … so for it the refinement holds outright for every guarded sequence. -/
 theorem refines_spec_concrete (cfg : Cfg) (hE : cfg.earlyDupCheck = true) (hR : cfg.redoOnce = true)
-    (t : HistoryTree.Tree) (clock : Nat) (cs : List C)
+    (hRI : cfg.revertIdOfRoot = false) (t : HistoryTree.Tree) (clock : Nat) (cs : List C)
     (hG : Guarded cfg ops (init t clock) [] cs = true) : AllConform cfg ops (init t clock) [] cs :=
-  refines_spec_partial cfg hE hR ops HistoryTree.roundTrip t clock cs hG
+  refines_spec_partial cfg hE hR hRI ops HistoryTree.roundTrip t clock cs hG
 
-/-- … in particular for the code as it is, whichever pre-validations it has. -/
+/-- … in particular for the code as it is. -/
 theorem refines_spec_current (t : HistoryTree.Tree) (clock : Nat) (cs : List C)
-    (hG : Guarded .current ops (init t clock) [] cs = true) : AllConform .current ops (init t clock) [] cs :=
-  refines_spec_concrete .current current_has_repairs.1 current_has_repairs.2 t clock cs hG
+    (hG : Guarded .current ops (init t clock) [] cs = true) : AllConform .current ops (init t clock) [] cs := by
+  rw [current_shape] at hG ⊢
+  exact refines_spec_concrete .full rfl rfl rfl t clock cs hG
+
+/-- … and for the code as it is an undo or a redo that does not succeed changes nothing, after any command sequence
+    from an empty history and under any clock. -/
+theorem undo_redo_atomic_current (t : HistoryTree.Tree) (clock : Nat) (cs : List C) (tg : Target HistoryTree.H) :
+    ((step .current ops (run .current ops (init t clock) cs).1 (.undo tg)).2 ≠ .ok →
+      (step .current ops (run .current ops (init t clock) cs).1 (.undo tg)).1 = (run .current ops (init t clock) cs).1) ∧
+    ((step .current ops (run .current ops (init t clock) cs).1 (.redo tg)).2 ≠ .ok →
+      (step .current ops (run .current ops (init t clock) cs).1 (.redo tg)).1 = (run .current ops (init t clock) cs).1) := by
+  rw [current_shape]
+  exact ⟨undo_atomic_all_runs .full rfl rfl ops t clock cs tg, redo_atomic .full rfl rfl ops _ tg⟩
+
+/-- A seeded variant (seeded/C10c): the revert id built on the ROOT plan id.  rename, undo, redo, undo latest within ONE
+    second: the last undo addresses `redo-X-<sec>`, restores the tree, and computes `revert-X-<sec>` — which the first undo
+    already took: exit ≠ 0 after the tree was changed, no entry.  With the id built on the entry id all four succeed. -/
+theorem revert_id_of_root_collides :
+    (run { Cfg.full with revertIdOfRoot := true } ops (start t0) [renA', .undo .latest, .redo .latest, .undo .latest]).2
+      = [.ok, .ok, .ok, .failed] ∧
+    (run { Cfg.full with revertIdOfRoot := true } ops (start t0) [renA', .undo .latest, .redo .latest, .undo .latest]).1.tree
+      = HistoryTree.normalize t0 ∧
+    (run { Cfg.full with revertIdOfRoot := true } ops (start t0) [renA', .undo .latest, .redo .latest, .undo .latest]).1.entries.length = 3 ∧
+    (run .full ops (start t0) [renA', .undo .latest, .redo .latest, .undo .latest]).2 = [.ok, .ok, .ok, .ok] := by decide
 
 /-- Non-vacuity of the guard: renames of three different plans, undo and redo by `latest` and by id, one second apart
     and within one second, repeated redos, duplicates — all inside `G10` … -/
